@@ -191,6 +191,24 @@ def corr_functions(ctx: Ctx, drv):
         ok = len(out) == 2 * nmol and rel_ok([b2f(t) for t in out[:nmol]], Etot.numpy()) and rel_ok([b2f(t) for t in out[nmol:]], Enuc.numpy())
         ctx.corr_case("total_energy", {"nmol": nmol, "pair_molid": pm.tolist(), "EnucAB": en.tolist(), "Eelec": ee.tolist()}, out[:4], Etot.tolist()[:4], ok, nontrivial=npairs > 0)
     for i in range(n // 2):
+        nmol = int(rng.integers(1, 4))
+        nat = int(rng.integers(nmol, 9))
+        am = np.sort(np.concatenate([np.arange(nmol), rng.integers(0, nmol, size=nat - nmol)]))
+        Etot = rng.normal(size=nmol) * 100
+        Eiso = rng.normal(size=nat) * 50
+        Z = rng.integers(1, 10, size=nat)
+        import types as _t
+        const = _t.SimpleNamespace(eheat=torch.as_tensor(rng.normal(size=20)))
+        Hf, Es = heat_formation(const, nmol, torch.as_tensor(am), torch.as_tensor(Z), torch.as_tensor(Etot), torch.as_tensor(Eiso), flag=True)
+        out = drv.ask("heat_formation", nmol, nat, *am.tolist(), *[f2b(v) for v in Etot], *[f2b(v) for v in Eiso], *[f2b(float(const.eheat[z])) for z in Z])
+        ok = len(out) == 2 * nmol and rel_ok([b2f(t) for t in out[:nmol]], Hf.numpy()) and rel_ok([b2f(t) for t in out[nmol:]], Es.numpy())
+        ctx.corr_case("heat_formation", {"nmol": nmol, "atom_molid": am.tolist()}, out[:3], Hf.tolist()[:3], ok)
+        ne = int(rng.integers(2, 10))
+        e = np.sort(rng.normal(size=ne))
+        no = int(rng.integers(1, ne))
+        out = drv.ask("gap_rhf", ne, no, *[f2b(v) for v in e])
+        ctx.corr_case("gap (RHF)", {"n": ne, "nocc": no}, out, e[no] - e[no - 1], len(out) == 1 and out[0] not in ("bad-op", "raise") and b2f(out[0]) == float(e[no] - e[no - 1]))
+    for i in range(n // 2):
         nat = int(rng.integers(1, 7))
         npa = int(rng.choice([1, 4]))
         tore = rng.integers(1, 8, size=nat).astype(float)
